@@ -179,6 +179,17 @@ def run(ctx):
         mname = norm(g.stmt[forced[0]].targets[0].slice)
         mdef = [s for s in walk_no_nested(sw.node) if isinstance(s, ast.Assign)
                 and norm(s.targets[0]) == mname]
+        if len(mdef) == 1:
+            from .c08 import _resolve_local
+
+            class _R(ast.NodeTransformer):
+                def visit_Name(self, nd):
+                    r = _resolve_local(sw.node, nd)
+                    return r if r is not nd and isinstance(
+                        nd.ctx, ast.Load) else nd
+            import copy as _copy
+            mdef = [ast.fix_missing_locations(
+                _R().visit(_copy.deepcopy(mdef[0])))]
         okm = len(mdef) == 1 and "isfinite" in norm(mdef[0].value) and (
             "bitwise_not" in norm(mdef[0].value) or
             "logical_not" in norm(mdef[0].value) or "~" in norm(mdef[0].value))
